@@ -1281,10 +1281,13 @@ class ProcessPoolExecutor(Executor):
             self._pending_work_items[self._queue_count] = w
             self._work_ids.put(self._queue_count)
             self._queue_count += 1
-            # Wake up queue management thread
-            self._executor_manager_thread_wakeup.wakeup()
 
             self._ensure_executor_running()
+            # Wake up queue management thread. This is done once the missing
+            # workers have been spawned so that the manager thread watches
+            # their sentinels: a worker spawned after the wakeup could die
+            # (e.g. in its initializer) without ever being noticed.
+            self._executor_manager_thread_wakeup.wakeup()
             return f
 
     submit.__doc__ = Executor.submit.__doc__
